@@ -242,11 +242,6 @@ def evalAuth (p : Pending) (glob : Oracle) (obsToks : List String) : String :=
 
 /-! language `copier` -/
 
-/-- `stop` placed right after the `k`-th event-loop turn (counted from 0) -/
-def insertStop (k : Nat) : List Copier.Ev → Nat → List Copier.Ev
-  | [], _ => []
-  | e :: r, seen => if e == .turn then (if seen == k then e :: .stop :: r else e :: insertStop k r (seen + 1)) else e :: insertStop k r seen
-
 def evalCopier (p : Pending) (obsToks : List String) : String :=
   let (cfg, evs) := p.toks.foldl (fun (acc : Copier.Cfg × List Copier.Ev) t =>
     let (c, es) := acc
@@ -273,14 +268,14 @@ def evalCopier (p : Pending) (obsToks : List String) : String :=
   let cfg := { cfg with prePos := if cfg.prePos ≤ cfg.src.length then cfg.prePos else 0 }
   -- `stopin:k`: stop() is called from inside the k-th write of the destination.  What must be observed is what the model
   -- shows when stop() is an event of its own right after the turn that makes that write (the C14 theorems about stop()
-  -- speak about that run); event markers are left out of the comparison, the implementation's run has one less.
+  -- speak about that run), or, when that write is the last one of the copy, the run without stop() (the completion
+  -- stop() signals is the only one): `C14.stopInEvs`.  That this is what the repaired code does when stop() runs inside
+  -- the write (model `Copier.runS`) is the theorem `C14.stopin_equiv`; event markers are left out of the comparison,
+  -- the implementation's run has one less.
   let stopIn : Option Nat := p.toks.findSome? fun t => match fields t with | ["stopin", k] => some (toNat k) | _ => none
-  -- (when that write is the last one of the copy, the completion stop() signals is the only one: the run without stop())
+  let evs0 := evs
   let evs := match stopIn with
-    | some k =>
-      let withStop := insertStop k evs 0
-      let upTo := withStop.takeWhile (· != .stop)
-      if (Copier.run cfg upTo).log.any (· == Copier.fin) then evs else withStop
+    | some k => C14.stopInEvs cfg k evs
     | none => evs
   let mlog := (Copier.run cfg evs).log
   let ilog := (obsToks.filter (· != "end")).filterMap parseObs
@@ -290,12 +285,16 @@ def evalCopier (p : Pending) (obsToks : List String) : String :=
     l.foldr (fun o acc => match o, acc with
       | .misc 1 a, .misc 1 c :: rest => .misc 1 (a ++ c) :: rest
       | o, acc => o :: acc) []
-  let noEv (l : List Obs) : List Obs := l.filter fun o => match o with | .ev _ => false | _ => true
+  let noEv (l : List Obs) : List Obs := C14.noMark l
   let pm := if stopIn.isSome then mergeX (noEv mlog) else mergeX mlog
   let pi := if stopIn.isSome then mergeX (noEv ilog) else mergeX ilog
   let eq := pm == pi
   let hm := C14.holdsRuns cfg evs mlog
-  let hi := if stopIn.isSome then eq else C14.holdsRuns cfg evs ilog
+  -- `stopin:k`: the implementation is also compared with the model that has the nested stop() itself (`Copier.runS`)
+  let eqS := match stopIn with
+    | some k => mergeX (noEv (Copier.runS cfg k evs0).log) == pi
+    | none => true
+  let hi := if stopIn.isSome then eq && eqS else C14.holdsRuns cfg evs ilog
   let b (x : Bool) := if x then "1" else "0"
   let head := s!"RES {p.prop} {p.id} eq={b eq} hm={b hm} hi={b hi} miss={b (!badTok.isEmpty)} crash={b (obsToks.contains "crash")}"
   if eq && hi && hm && badTok.isEmpty then head else head ++ " | " ++ showLog pm ++ " | " ++ showLog pi
